@@ -73,6 +73,13 @@ func termQ(v ssa.Value, qual bool) string {
 	case *ssa.Const:
 		return constStr(t)
 	case *ssa.Call:
+		if k := calleeKey(t); k == "dynamic" {
+			if u, ok := t.Call.Value.(*ssa.UnOp); ok {
+				if ty, f, ok := fieldOf(u.X); ok {
+					return "call:field:" + ty + "." + f
+				}
+			}
+		}
 		return "call:" + calleeKey(t)
 	case *ssa.Extract:
 		if c, ok := t.Tuple.(*ssa.Call); ok {
@@ -418,7 +425,7 @@ func (c *Ctx) RequireFailureWithFacts(rule string, f *ssa.Function, errName stri
 		if ri.ErrIdx < 0 || ri.ErrIdx >= len(ri.Ret.Results) {
 			continue
 		}
-		if !mentions(ri.Ret.Results[ri.ErrIdx], readsGlobal(errName), 4, nil) {
+		if !mentions(canon(ri.Ret.Results[ri.ErrIdx]), readsGlobal(errName), 4, nil) {
 			continue
 		}
 		have := factsAt(ri.Ret)
